@@ -493,6 +493,7 @@ int main()
               << " szStateScript=" << sizeof(StateScript) << " szCatchBlock=" << sizeof(CatchBlock)
               << " szEntry=" << sizeof(con::Entry<const_str, script_label_t>) << " szPtr=" << sizeof(void*)
               << " szSourcePos=" << sizeof(sourcePosMap_t)
+              << " stackBits=" << 8 * sizeof(static_cast<ScriptEmitter*>(nullptr)->m_iVarStackOffset)
               << " parmNumMax=" << unsigned(std::numeric_limits<op_parmNum_t>::max())
               << " arrayParmNumMax=" << unsigned(std::numeric_limits<op_arrayParmNum_t>::max()) << " opMax=" << int(OP_MAX) << " opPrevious=" << int(OP_PREVIOUS)
               << " ops=";
